@@ -1,4 +1,5 @@
 import OsuModel.WindEstimate
+import OsuProofs.MeanMethod
 import OsuProofs.Directional
 import OsuProofs.RealTransc
 
@@ -198,5 +199,60 @@ theorem u10_def (kappa charnock g us : ℝ) :
 
 example : eqPeak 4 ([1, 2, 4] : List ℚ) [some 3, some (1/8), some (1/128)] [some 0, some 1, none] [some 0, some 0, some 0]
     = some (3, some 0, some 0) := by decide +kernel
+
+section mean
+variable {α : Type} [Field α] [LinearOrder α] [IsStrictOrderedRing α]
+
+/-- the pieces of `eqMean` as the code names them -/
+def meanScaled (p : ℕ) (fs es : List α) : List α := List.zipWith (fun f e => e * npow f p) fs es
+def meanIMin (absv : α → α) (fs : List α) : ℕ := nearestIdx absv fs 0
+def meanIMax (absv : α → α) (nb : ℕ) (fmax : α) (fs : List α) : ℕ :=
+  min (max (meanIMin absv fs + 1) (nearestIdx absv fs fmax + 1 - nb)) (fs.length - nb)
+def meanIStar (absv : α → α) (p nb : ℕ) (fmax : α) (fs es : List α) : ℕ :=
+  argminIdx (windowVariances (meanScaled p fs es) nb fs.length (meanIMin absv fs) (meanIMax absv nb fmax fs)) + meanIMin absv fs
+
+theorem eqMean_level_eq (absv : α → α) (p nb : ℕ) (fmax : α) (fs es a1 b1 : List α) :
+    (eqMean absv p nb fmax fs es a1 b1).1 = pickAt (meanScaled p fs es) nb fs.length (meanIStar absv p nb fmax fs es) := rfl
+
+/-- **mean method**: if one of the scanned `nb`-bin windows lies in a range where `E f^p` is
+constant (zero relative variance — e.g. a `c f^-p` range), then the window the code selects is
+itself flat, and (when the start-index clip does not bite and the window mean is not zero) the
+returned equilibrium level is exactly the constant value of that window -/
+theorem eqMean_level_of_flat_window (absv : α → α) (p nb : ℕ) (fmax : α) (fs es a1 b1 : List α)
+    (hes : fs.length ≤ es.length) (hnb : 0 < nb) (c0 : ℕ)
+    (hc0 : c0 < meanIMax absv nb fmax fs - meanIMin absv fs)
+    (hflat : relVar (candidate (meanScaled p fs es) nb fs.length (meanIMin absv fs + c0)) = 0)
+    (hnoclip : meanIStar absv p nb fmax fs es + nb ≤ fs.length - nb)
+    (hmean : lmean (candidate (meanScaled p fs es) nb fs.length (meanIStar absv p nb fmax fs es)) ≠ 0) :
+    (eqMean absv p nb fmax fs es a1 b1).1 =
+        lmean (candidate (meanScaled p fs es) nb fs.length (meanIStar absv p nb fmax fs es)) ∧
+    ∀ x ∈ candidate (meanScaled p fs es) nb fs.length (meanIStar absv p nb fmax fs es),
+      x = lmean (candidate (meanScaled p fs es) nb fs.length (meanIStar absv p nb fmax fs es)) := by
+  obtain ⟨hz, _⟩ := selected_variance_zero (meanScaled p fs es) nb fs.length (meanIMin absv fs) (meanIMax absv nb fmax fs) c0 hc0 hflat
+  have hstar : meanIMin absv fs + argminIdx (windowVariances (meanScaled p fs es) nb fs.length (meanIMin absv fs) (meanIMax absv nb fmax fs))
+      = meanIStar absv p nb fmax fs es := by simp only [meanIStar]; omega
+  rw [hstar] at hz
+  -- the selected window is the full `nb`-bin window starting at iStar
+  have hwin : candidate (meanScaled p fs es) nb fs.length (meanIStar absv p nb fmax fs es)
+      = ((meanScaled p fs es).drop (meanIStar absv p nb fmax fs es)).take nb := by
+    simp only [candidate]
+    congr 1
+    omega
+  have hlen : fs.length ≤ (meanScaled p fs es).length := by
+    simp only [meanScaled, List.length_zipWith]; omega
+  have hne : candidate (meanScaled p fs es) nb fs.length (meanIStar absv p nb fmax fs es) ≠ [] := by
+    rw [hwin]
+    intro h
+    have := congrArg List.length h
+    simp only [List.length_take, List.length_drop, List.length_nil] at this
+    omega
+  have hconst := relVar_zero_const _ hne hmean hz
+  refine ⟨?_, hconst⟩
+  rw [eqMean_level_eq]
+  apply pickAt_const _ _ _ _ _ hnb hnoclip hlen
+  rw [← hwin]
+  exact hconst
+
+end mean
 
 end Osu.Wind
